@@ -75,8 +75,10 @@ Definition do_disconnect (s : st) (id : N) (forget autodisc byhp : bool) (k : N)
         else (s, Some c, false)
       else
         let repo1 := remove id (s_repo s) in                              (* repo.Disconnect *)
-        if k =? 1 then (mkSt (s_conns s) repo1 (s_profc s) (s_profp s), Some c, false)   (* plug snap setup fails: plain return err *)
-        else if k =? 2 then (mkSt (s_conns s) repo1 repo1 (s_profp s), Some c, false)    (* slot snap setup fails *)
+        (* a failing setup: the deferred repo.Connect (commit 63d7dd9) puts the connection back; profiles already
+           regenerated are not regenerated again *)
+        if k =? 1 then (mkSt (s_conns s) (add id repo1) (s_profc s) (s_profp s), Some c, false)   (* plug snap setup fails *)
+        else if k =? 2 then (mkSt (s_conns s) (add id repo1) repo1 (s_profp s), Some c, false)    (* slot snap setup fails after the plug snap's succeeded *)
         else
           let conns :=
             if forget then del (s_conns s) id
@@ -122,8 +124,8 @@ Fixpoint reload (c : list (N * cstate)) : list N :=
 Definition op_id (o : op) : N := match o with OConnect id _ _ => id | ODisconnect id _ _ _ => id end.
 Definition excluded (s : st) (o : op) (f : fail) : bool :=
   match o, f with
-  | ODisconnect id _ _ _, FailMain k => mem id (s_repo s) && ((k =? 1) || (k =? 2))   (* finding 8: setup fails after repo.Disconnect *)
-  | OConnect _ _ _, FailMain k => k =? 2                                               (* slot snap profile generated, then rollback *)
+  | ODisconnect id _ _ _, FailMain k => mem id (s_repo s) && (k =? 2)                  (* plug snap profile regenerated without it, then reconnect *)
+  | OConnect _ _ _, FailMain k => k =? 2                                               (* slot snap profile generated with it, then rollback *)
   | OConnect id _ _, FailAfter =>                                                       (* undo forgets an overwritten hotplug-gone entry *)
       match lookup (s_conns s) id with Some c => c_hpgone c && negb (c_undesired c) | None => false end
   | ODisconnect id forget _ _, FailAfter => forget && negb (mem id (s_repo s))          (* undo of forgetting an inactive connection reconnects it *)
